@@ -141,7 +141,7 @@ def handleCf (op : String) (args : List Sexp) : Option Sexp := do
         | _ => none
       let b := fun (x : Bool) => Sexp.atom (if x then "1" else "0")
       pure (tagged "ok" (.list [.atom "frag", b (inFragmentCB sortWorlds (orderDistrict false) G o c),
-        b (inFragmentXB sortWorlds G o c)] :: rs))
+        b (inFragmentXB sortWorlds G o c), b (disjointNamesB o c || idcInvB G o c)] :: rs))
   | "idc_star_trace", [g, outs, conds, rev, rot, drev, fuel] => do
       -- termination search: sizes (|outcomes|, |conditions|) of every level of the line-4 recursion
       let G ← parseGraph g
